@@ -59,6 +59,7 @@ class Run(object):
         self.state_keys = set()
         self.single = False
         self.tolx = 1.0
+        self.floorx = 1.0
         self._cap_lists = {}
 
     # ------------------------------------------------------------------ helpers
@@ -130,7 +131,7 @@ class Run(object):
         a non-orthonormalised side wiped out its value).  A *relative* threshold then compares rounding noise with
         rounding noise (s/s[0] is 0/0 in the limit): the documentation does not define the outcome (on the real code
         rank-0 bonds and an IndexError can result), so threshold-dependent calls are not issued on such an object."""
-        return not (self.snap.norm > 1e-12 * self.tolx * self.snap.scale)
+        return not (self.snap.norm > 1e-12 * self.tolx * self.floorx * self.snap.scale)
 
     def _is_vector(self):
         return all(c == 1 for c in self.t.col_dims)
@@ -157,6 +158,9 @@ class Run(object):
             # is skipped
             self.single = bool(rec["spec"].get("single"))
             self.tolx = 2.0e5 if self.single else 1.0
+            # single precision: rounding is relative to the SCALE (product of the core norms), a few tens of float32 epsilons
+            # of it; 1e-12*tolx = 1.7 eps32 was tighter than float32 arithmetic itself (false alarm, DESIGN 11.3)
+            self.floorx = 25.0 if self.single else 1.0
             self._resnap()
             return "ok"
         if self.t is None:
@@ -290,7 +294,7 @@ class Run(object):
                 self._fail("C03", op, "isometry", {"core": i, "side": side, "defect": defect, "range": [s, e]}, rec)
         if not truncating:
             # -- value preserved
-            bad, err = before.differs(after.dense, TOL_VALUE * self.tolx, 1e-12 * self.tolx)
+            bad, err = before.differs(after.dense, TOL_VALUE * self.tolx, 1e-12 * self.tolx * self.floorx)
             if bad:
                 self._fail("C03", op, "value", {"error": err, "norm": before.norm, "scale": before.scale, "range": [s, e],
                                                 "ranks_before": ranks_before, "ranks_after": ranks_after}, rec)
@@ -320,7 +324,7 @@ class Run(object):
                 if r != np.inf and r < len(sv):
                     bound2 += float(np.sum(sv[int(r):] ** 2))
             err = float(env.REAL.np_norm((after.dense - before.dense).ravel())) if after.dense.shape == before.dense.shape else INF
-            lim = (1 + 1e-8 * self.tolx) * math.sqrt(bound2) + 1e-11 * self.tolx * before.norm + before.floor(1e-12 * self.tolx)
+            lim = (1 + 1e-8 * self.tolx) * math.sqrt(bound2) + 1e-11 * self.tolx * before.norm + before.floor(1e-12 * self.tolx * self.floorx)
             if not (err <= lim):
                 self._fail("C04", op, "quasi-optimal", {"error": err, "bound": math.sqrt(bound2), "caps": [None if c == np.inf else c for c in caps],
                                                          "ranks_after": ranks_after}, rec)
@@ -374,7 +378,7 @@ class Run(object):
                 return "raised"
             self._fail("C03", "norm", "raised", {"exception": repr(exc)[:300]}, rec)
         val = float(np.real(out))
-        if not (abs(val - before.norm) <= 1e-9 * self.tolx * before.norm + before.floor(1e-12 * self.tolx)):
+        if not (abs(val - before.norm) <= 1e-9 * self.tolx * before.norm + before.floor(1e-12 * self.tolx * self.floorx)):
             self._fail("C03", "norm", "value", {"norm": val, "model": before.norm}, rec)
         now = M.Snapshot(t)
         if now.meta != before.meta or before.differs(now.dense, TOL_SAME)[0]:
@@ -431,7 +435,7 @@ class Run(object):
             self._fail("C04", op, "dims-changed", {"before": before.meta, "after": after.meta}, rec)
         ranks_after = list(after.meta[3])
         if thr == 0 and mr is None:
-            bad, err = before.differs(after.dense, TOL_VALUE * self.tolx, 1e-12 * self.tolx)
+            bad, err = before.differs(after.dense, TOL_VALUE * self.tolx, 1e-12 * self.tolx * self.floorx)
             if bad:
                 self._fail("C04", op, "exact", {"error": err, "norm": before.norm, "scale": before.scale}, rec)
         else:
